@@ -76,15 +76,59 @@ def case_to_coq(c):
     if m["ep"] == "tempo_trace":
         subj = "STrace %s" % coq_list([SPANK[k] for k in (m.get("spans") or [])])
     else:
-        rws = m.get("rows") or []
-        base = min([r["ts"] // 10**9 for r in rws] or [0])
-        rows = "(let b := %s in %s)" % (coq_Z(base), coq_list(
-            ["row_at b %d %d %d %d %s" % (r["fp"], r["ts"] // 10**9 - base, r["ts"] % 10**9, r["val"], ROWK[r["kind"]]) for r in rws]))
-        subj = "SLoki (mkReq %s %s %s %d %s %s %s %s %s %s %s %s)" % (
-            "true" if m["ep"] == "loki_instant" else "false", "true" if m["has_query"] else "false", SHAPES[m["shape"]],
-            m["dur_s"], coq_param(m["start"]), coq_param(m["end"]), coq_param(m["step"]), coq_param(m["limit"]), rows,
-            coq_Z(m["fail_after"]), "true" if m["query_err"] else "false", "true" if m.get("boot_fail") else "false")
+        rows = rows_to_coq(m)
+        subj = "SLoki (%s)" % req_to_coq(m, rows)
     return "mkCase %d (%s) %d" % (c["id"], subj, obs_code(c["obs"]))
+
+
+def req_to_coq(m, rows):
+    return "mkReq %s %s %s %d %s %s %s %s %s %s %s %s" % (
+        "true" if m["ep"] == "loki_instant" else "false", "true" if m["has_query"] else "false", SHAPES[m["shape"]],
+        m["dur_s"], coq_param(m["start"]), coq_param(m["end"]), coq_param(m["step"]), coq_param(m["limit"]), rows,
+        coq_Z(m["fail_after"]), "true" if m["query_err"] else "false", "true" if m.get("boot_fail") else "false")
+
+
+def rows_to_coq(m):
+    rws = m.get("rows") or []
+    base = min([r["ts"] // 10**9 for r in rws] or [0])
+    return "(let b := %s in %s)" % (coq_Z(base), coq_list(
+        ["row_at b %d %d %d %d %s" % (r["fp"], r["ts"] // 10**9 - base, r["ts"] % 10**9, r["val"], ROWK[r["kind"]]) for r in rws]))
+
+
+# ------------------------------------------------------------------------------ float -> int64 conversions (model/ReadConv.v)
+CHEADER = ("From Coq Require Import List ZArith Bool.\nFrom Qryn Require Import model.Pipeline model.ReadPath model.ReadConv.\n"
+           "Import ListNotations.\nOpen Scope Z_scope.\n")
+
+
+def is_conv(c):
+    return bool(c.get("model")) and c["model"].get("ep") == "conv"
+
+
+def cparam_to_coq(p):
+    return {"absent": "FpAbsent", "bad": "FpBad", "exact": "(FpNum (FExact %s))" % coq_Z(p.get("v", 0)), "undef": "(FpNum FUndef)"}[p["k"]]
+
+
+def ccase_to_coq(c):
+    m = c["model"]
+    anyv = lambda p: coq_Z(p.get("v", 0)) if p["k"] == "undef" else "0"
+    return "mkCC %d (%s) %s %s %s %s %s %s %d" % (c["id"], req_to_coq(m["base"], rows_to_coq(m["base"])), cparam_to_coq(m["cstart"]), cparam_to_coq(m["cend"]),
+                                                  cparam_to_coq(m["cstep"]), anyv(m["cstart"]), anyv(m["cend"]), anyv(m["cstep"]), obs_code(c["obs"]))
+
+
+def eval_ccases(ck, name, cases):
+    txt = (CHEADER + "Definition cases : list ccase := [\n  " + ";\n  ".join(ccase_to_coq(c) for c in cases) + "].\n"
+           "Definition P := Eval vm_compute in map cpredicted cases.\nPrint P.\n"
+           "Definition MV := Eval vm_compute in (cmismatches cases, cspec_violations cases).\nPrint MV.\n")
+    rc, out = ck.coq_eval(name, txt)
+    if rc != 0:
+        return None, out
+    flat = " ".join(out.split())
+    mp = re.search(r"\bP = (\[.*?\]|nil)\s*: list Z", flat)
+    mv = re.search(r"\bMV = \((\[.*?\]|nil), (\[.*?\]|nil)\)", flat)
+    if not mp or not mv:
+        return None, out
+    ints = lambda t: [int(x) for x in re.findall(r"-?\d+", t)]
+    return {"P": ints(mp.group(1)), "M": ints(mv.group(1)), "V": ints(mv.group(2))}, out
 
 
 def eval_cases(ck, name, cases):
@@ -454,7 +498,8 @@ def run(ck):
     fwd = [c for c in cases if is_fwd(c)]
     prom = [c for c in cases if is_prom(c)]
     profc = [c for c in cases if is_prof(c)]
-    modelled = [c for c in cases if c.get("model") and not is_fwd(c) and not is_prom(c) and not is_prof(c)]
+    convc = [c for c in cases if is_conv(c)]
+    modelled = [c for c in cases if c.get("model") and not is_fwd(c) and not is_prom(c) and not is_prof(c) and not is_conv(c)]
     testonly = [c for c in cases if not c.get("model")]
     known = ck.known_findings()
 
@@ -588,6 +633,34 @@ def run(ck):
                       "model_predicted": "%s, %d statements" % (CODE_NAME.get(qpred[w["id"]] // 1000), qpred[w["id"]] % 1000), "case": strip(w),
                       "others": len(QM) - 1, "broken": "correspondence ReadProf.prof_outcome vs reader router"}, no_input=True)
 
+    # ---- 4e. float -> int64 conversions of start / end / step (Loki query_range), inside Coq
+    cbyid = {c["id"]: c for c in convc}
+    cjobs = [(k // 60, convc[k:k + 60]) for k in range(0, len(convc), 60)]
+    with ThreadPoolExecutor(max_workers=6) as ex:
+        cres = list(ex.map(lambda j: eval_ccases(ck, "C12_ccases_%d" % j[0], j[1]), cjobs))
+    CM, CV, CP = [], [], []
+    for r, out in cres:
+        if r is None:
+            ck.obligation("conversion cases evaluated inside Coq", False, out[-1500:])
+            return
+        CM += r["M"]; CV += r["V"]; CP += r["P"]
+    cpred = dict(zip([c["id"] for c in convc], CP))
+    cshow = lambda i: (i, cbyid[i]["class"], [(p["k"], p["v"]) for p in cbyid[i]["params"] if p["k"] in ("start", "end", "step")],
+                       "model " + CODE_NAME.get(cpred[i], "?"), "observed %s %s" % (CODE_NAME.get(obs_code(cbyid[i]["obs"])), (cbyid[i]["obs"].get("body_head") or "")[:80]))
+    ck.obligation("correspondence: range_outcome_ns (start / end / step through the float path; undefined conversions = the value this platform produced) = observed outcome class on %d requests" % len(convc),
+                  not CM, "mismatching %s" % [cshow(i) for i in CM[:6]])
+    ck.obligation("spec oracle: every request with out-of-range / NaN / infinite start, end or step ends in an HTTP response with nothing left behind",
+                  not CV, "violating %s" % [cshow(i) for i in CV[:6]])
+    if CV:
+        w = min((cbyid[i] for i in CV), key=size_of)
+        ck.violation({"property": "C12", "kind": "request does not end in an orderly HTTP response: " + CODE_NAME[obs_code(w["obs"])],
+                      "model_predicted": CODE_NAME.get(cpred[w["id"]]), "case": strip(w), "others": len(CV) - 1, "replay": "bin/check C12 --replay <this file>"})
+    elif CM:
+        w = min((cbyid[i] for i in CM), key=size_of)
+        ck.violation({"property": "C12", "kind": "model and implementation disagree on the outcome class (both orderly)",
+                      "model_predicted": CODE_NAME.get(cpred[w["id"]]), "case": strip(w), "others": len(CM) - 1,
+                      "broken": "correspondence ReadConv.range_outcome_ns vs reader router"}, no_input=True)
+
     # ---- 5. test-only stream
     bad = []
     for c in testonly:
@@ -630,7 +703,16 @@ def run(ck):
                             "valid, mutated and random query bytes and random result sets. non-trivial = a SQL statement was issued (or the request did not end in a response); distinct by request+script content. ")
     ck.extra["input_distribution"] = hist
     ck.extra["observed_outcomes"] = outc
-    ck.extra["modelled_requests"] = len(modelled) + len(fwd) + len(prom) + len(profc)
+    ck.extra["modelled_requests"] = len(modelled) + len(fwd) + len(prom) + len(profc) + len(convc)
+    ck.extra["modelled_conversion_requests"] = len(convc)
+    ck.extra["conversion_kinds"] = {}
+    for c in convc:
+        for nm in ("cstart", "cend", "cstep"):
+            p = c["model"][nm]
+            if p.get("t"):
+                k = "%s %s -> %s%s" % (nm[1:], p["t"], p["k"], (" %d" % p["v"]) if p["k"] in ("exact", "undef") else "")
+                ck.extra["conversion_kinds"][k] = ck.extra["conversion_kinds"].get(k, 0) + 1
+    ck.extra["conversion_model_decisions"] = {CODE_NAME.get(k, str(k)): CP.count(k) for k in sorted(set(CP))}
     ck.extra["modelled_pyroscope_requests"] = len(profc)
     ck.extra["pyroscope_model_decisions"] = {"%s/%d statements" % (CODE_NAME.get(k // 1000), k % 1000): QP.count(k) for k in sorted(set(QP))}
     ck.extra["pyroscope_requests_reaching_the_statement"] = sum(1 for c in profc if c["obs"].get("stmts", 0) > 0)
